@@ -53,6 +53,10 @@ pub struct Spec {
     /// with `cosigned`: 70 (not 3) further valid signatures by untrusted keys on the layout and on every link
     #[serde(default)]
     pub many_cosigners: bool,
+    /// the key table holds two keys whose ids share the eight characters a file name carries; one of them is a
+    /// functionary of the step and files a counted link, the other does nothing
+    #[serde(default)]
+    pub colliding_table_key: bool,
 }
 
 /// Step `i` delegated by two authorised functionaries; the copy filed by `bad` cannot verify.
@@ -187,6 +191,29 @@ fn cosign(w: &mut World) {
 
 fn build(spec: &Spec) -> Option<World> {
     let mut w = build_inner(spec)?;
+    if spec.colliding_table_key {
+        let n = w.layout.steps.len();
+        let i = spec.step as usize % n;
+        let name = w.layout.steps[i].name.clone();
+        let (mut p, mut q) = collider_pair(spec.step / 3);
+        if spec.step & 0x40 != 0 {
+            std::mem::swap(&mut p, &mut q);
+        }
+        let taken = w.links.iter().any(|f| f.step == name && f.name_field.clone().unwrap_or_else(|| prefix8(&f.filed_under)) == prefix8(&p));
+        if let (false, Some(f)) = (taken, w.links.iter_mut().find(|f| f.step == name && matches!(f.body, Body::Link { .. }))) {
+            f.filed_under = p.clone();
+            f.name_field = None;
+            if let Body::Link { sigs, .. } = &mut f.body {
+                *sigs = vec![SigEntry::good(&p)];
+            }
+            w.layout.steps[i].pubkeys.push(p.clone());
+            for k in [&p, &q] {
+                if !w.layout.keys.iter().any(|t| key_id_str(t) == key_id_str(k)) {
+                    w.layout.keys.push(k.clone());
+                }
+            }
+        }
+    }
     if spec.cosigned {
         if spec.many_cosigners {
             cosign_many(&mut w);
@@ -338,9 +365,9 @@ impl Property for C13 {
             prop_oneof![5 => Just(None), 2 => (0u8..8).prop_map(Some)],
             prop_oneof![3 => Just(false), 1 => Just(true)],
             prop_oneof![3 => Just(false), 1 => Just(true)],
-            prop_oneof![4 => Just(false), 1 => Just(true)],
+            (prop_oneof![4 => Just(false), 1 => Just(true)], prop_oneof![4 => Just(false), 1 => Just(true)]),
         )
-            .prop_map(|((world, owners), step, variants, rule_trap, creation_order, two_digest_match, multi_party, surplus_sub, cosigned, twin, many_cosigners)| Spec { world, owners, step, variants, rule_trap, creation_order, two_digest_match, multi_party, surplus_sub, cosigned, twin, many_cosigners })
+            .prop_map(|((world, owners), step, variants, rule_trap, creation_order, two_digest_match, multi_party, surplus_sub, cosigned, twin, (many_cosigners, colliding_table_key))| Spec { world, owners, step, variants, rule_trap, creation_order, two_digest_match, multi_party, surplus_sub, cosigned, twin, many_cosigners, colliding_table_key })
             .prop_filter("buildable", |s| build(s).is_some())
             .boxed()
     }
@@ -401,6 +428,9 @@ impl Property for C13 {
         if spec.multi_party {
             o.class("multi-party-with-differing-links");
         }
+        if spec.colliding_table_key {
+            o.class("key-table-with-colliding-short-ids");
+        }
         if spec.cosigned {
             o.class("cosigned-by-untrusted-keys");
         }
@@ -449,7 +479,7 @@ impl Property for C13 {
                 o.fail(format!("C13/summary-differs/{}", what), format!("summaries differ between repetitions: {} vs {}", first, other["summary"]), "the same summary every time");
             }
         }
-        if j.ambiguous || spec.two_digest_match || spec.multi_party || spec.surplus_sub.is_some() || spec.cosigned {
+        if j.ambiguous || spec.two_digest_match || spec.multi_party || spec.surplus_sub.is_some() || spec.cosigned || spec.colliding_table_key {
             o.nontrivial(format!("{}|{:?}|{}|{}|{}|{}|{:?}", w.layout.steps.len(), spec.variants, spec.rule_trap, spec.step as usize % w.layout.steps.len(), spec.two_digest_match, spec.multi_party, (spec.surplus_sub, spec.cosigned)));
         }
         let _ = std::fs::remove_dir_all(&dir);
